@@ -2,6 +2,7 @@
 LLVM_CXXFLAGS := $(shell llvm-config-14 --cxxflags)
 build/hfx: tools/hfx/hfx.cc
 	mkdir -p build
-	clang++ $(LLVM_CXXFLAGS) -fno-rtti -O1 tools/hfx/hfx.cc -o build/hfx /usr/lib/llvm-14/lib/libclang-cpp.so.14 /usr/lib/llvm-14/lib/libLLVM-14.so
+	clang++ $(LLVM_CXXFLAGS) -fno-rtti -O1 tools/hfx/hfx.cc -o build/hfx.new /usr/lib/llvm-14/lib/libclang-cpp.so.14 /usr/lib/llvm-14/lib/libLLVM-14.so
+	mv -f build/hfx.new build/hfx
 all: build/hfx
 .PHONY: all
